@@ -1,0 +1,47 @@
+//go:build verif
+
+package font
+
+// Verification hooks for property C10 (decoded metrics and outlines).
+// Add-only: re-exports of unexported functions so that a harness can drive them.
+
+// VerifContourPoint is a contour point as buildSegments / extentsFromPoints see it.
+type VerifContourPoint struct {
+	X, Y  float32
+	On    bool // isOnCurve
+	IsEnd bool // isEndPoint
+}
+
+func verifPoints(pts []VerifContourPoint) []contourPoint {
+	out := make([]contourPoint, len(pts))
+	for i, p := range pts {
+		out[i].X, out[i].Y = p.X, p.Y
+		out[i].isOnCurve = p.On
+		out[i].isEndPoint = p.IsEnd
+	}
+	return out
+}
+
+// VerifBuildSegments runs buildSegments on the given points (no phantom points).
+func VerifBuildSegments(pts []VerifContourPoint) []Segment {
+	return buildSegments(verifPoints(pts))
+}
+
+// VerifExtentsFromPoints runs extentsFromPoints on the given points followed by the four
+// (zero) phantom points the function expects.
+func VerifExtentsFromPoints(pts []VerifContourPoint) GlyphExtents {
+	all := append(verifPoints(pts), make([]contourPoint, phantomCount)...)
+	return extentsFromPoints(all)
+}
+
+// VerifNumGlyphs returns maxp.numGlyphs as stored by NewFont.
+func (f *Font) VerifNumGlyphs() int { return f.nGlyphs }
+
+// VerifGlyfLen returns the number of parsed 'glyf' entries (0 when the table is absent or rejected).
+func (f *Font) VerifGlyfLen() int { return len(f.glyf) }
+
+// VerifHasOtherGlyphSources reports whether GlyphData / GlyphExtents may be answered by a table
+// other than 'glyf' (sbix, bitmap strikes, SVG, CFF, CFF2).
+func (f *Font) VerifHasOtherGlyphSources() bool {
+	return len(f.sbix) != 0 || f.bitmap != nil || f.cff != nil || f.cff2 != nil || len(f.svg) != 0
+}
